@@ -49,7 +49,7 @@ RunEnd(t, i, S) ==
 Lower(c) == IF c \in 65..90 THEN c + 32 ELSE c
 
 (* "would start an identifier" / "would start a number" (CSS Syntax 4.3.9/10; *)
-(* escapes in identifiers are outside the domain, see Bad below)               *)
+(* escapes in identifiers are outside the domain: TokAt answers "bad")        *)
 StartsIdent(t, i) == \/ At(t, i) \in NameStart
                      \/ At(t, i) = 45 /\ (At(t, i + 1) \in NameStart \/ At(t, i + 1) = 45)
 StartsNum(t, i) ==
